@@ -1,6 +1,56 @@
 /-
-  C01 — property theorems (stub; to be filled in).
+  C01 — argument values reach the database only as bound parameters, one per placeholder.
+
+  Model: `GormModel/Model/Bind.lean` (`Gorm.Bind.addVar` = statement.go `Statement.AddVar` with everything it
+  dispatches to).  `Val β` is polymorphic in the payload β of bindable data; SQL text is `List Seg` (no β).
 -/
+import GormModel.Lemmas.Bind
+import GormModel.Gen.Misc
 namespace Gorm
+open Gorm.Bind
+
+/-- **"never becomes part of the SQL text"**: for ALL values (any nesting of slices, expressions with their own
+    arguments, named arguments, clause builders, sub-queries), both dialects, every amount of fuel and every start
+    state: building commutes with an arbitrary re-labelling `f` of the payloads.  In particular the text segments do
+    not depend on any payload, and the bound values are the payloads themselves, in the same positions. -/
+theorem C01_naturality {β γ : Type} (f : β → γ) (d : Dialect) (n : Nat) (v : Val β) (st : St β) :
+    addVar d n (v.map f) (st.map f) = (addVar d n v st).map f :=
+  Bind.addVar_nat f d n v st
+
+/-- the same for `render` (= `stmt.AddVar(stmt, v)` on a fresh statement with adequate fuel) -/
+theorem C01_render_naturality {β γ : Type} (f : β → γ) (d : Dialect) (v : Val β) :
+    render d (v.map f) = (render d v).map f :=
+  Bind.render_nat f d v
+
+/-- corollary: two inputs of the same shape (they differ only in payloads) produce the SAME text; the SQL sent to
+    the driver is a function of the shape alone -/
+theorem C01_text_independent {β γ : Type} (f : β → γ) (d : Dialect) (v : Val β) :
+    concretize d (render d (v.map f)).segs = concretize d (render d v).segs := by
+  rw [C01_render_naturality]; rfl
+
+/-- corollary: the bound values are exactly the images of the bound values -/
+theorem C01_vars_natural {β γ : Type} (f : β → γ) (d : Dialect) (v : Val β) :
+    (render d (v.map f)).vars = (render d v).vars.map (Val.map f) := by
+  rw [C01_render_naturality]; rfl
+
+/-- non-vacuity / sanity: a hostile string payload in a slice after `(`, `$n` dialect -/
+example :
+    let v : Val String := .expr "name IN (?) AND age > ?".toList [.list true [.scalar "x'); DROP--", .scalar "?"], .scalar "@n"] false
+    (String.ofList (concretize .dollar (render .dollar v).segs), (render .dollar v).vars.length, (render .dollar v).oof)
+      = ("name IN ($1,$2) AND age > $3", 3, false) := by decide
+
+/-! ### regenerated arm table of `Statement.AddVar` (extract/main.go → Gen/Misc.lean) -/
+
+/-- every arm of the type switch that appends to `stmt.Vars` calls `BindVarTo` once per append — except the
+    `sql.NamedArg` arm (append, no placeholder) -/
+theorem C01_arms :
+    ∀ a ∈ Gen.addVarArms, a.appendsVar > 0 → (a.types = ["sql.NamedArg"] ∨ a.bindVarTo = a.appendsVar) := by decide
+
+/-- … and `sql.NamedArg` is the only such arm -/
+theorem C01_arms_named_only :
+    (Gen.addVarArms.filter (fun a => decide (a.appendsVar > a.bindVarTo))).map (·.types) = [["sql.NamedArg"]] := by decide
+
+/-- the arm table the model was transcribed from equals the one regenerated from /repo on this run -/
+theorem C01_arms_model : Bind.modelArms = Gen.addVarArms := by decide
 
 end Gorm
